@@ -55,6 +55,11 @@ def cases(tier: str) -> list[dict[str, Any]]:
                 if splitter == "simple" and name != "plain":
                     continue
                 cs.append(dict(key=f"wpl/{name}/md={md}/{splitter}", kind="wpl", words=ws, md=md, splitter=splitter))
+    if th:
+        # deeper plain cases: 9 words (every break layout of 9 words with symbolic columns)
+        for md in (True, False):
+            cs.append(dict(key=f"wpl/plain9/md={md}/default", kind="wpl", words=V.toks(9), md=md, splitter="default", cost=50))
+        cs.append(dict(key="wp/plain9/ind=both", kind="wp", words=V.toks(9), md=True, ind="both", cost=50))
     # B. wrap_paragraph with symbolic indents
     for name, ws in _word_variants(n, th)[: (None if th else 8)]:
         for ind in ("none", "both", "first", "next"):
@@ -77,15 +82,15 @@ def cases(tier: str) -> list[dict[str, Any]]:
         for ind in ("none", "both"):
             cs.append(dict(key=f"lww/{name}/ind={ind}", kind="lww", segs=sg, brk=brk, ind=ind))
     # E. line_wrap_by_sentence with symbolic min_line_len
-    nw = 6 if th else 5
-    for ends in V.all_end_sets(nw - 1, 2):
+    nw = 7 if th else 5
+    for ends in V.all_end_sets(nw - 1, 3 if th else 2):
         ws = V.sentence_patterns(nw, ends)
         for ind in ("none", "both"):
             cs.append(dict(key=f"lwbs/ends={ends}/ind={ind}", kind="lwbs", words=ws, ind=ind, sym_min=True))
     # F. document level: reformat_text in every container context, both modes
     ctxs = K.K_ALL if th else K.K_QUICK
     ctxs = [c for c in ctxs if c != "task"]
-    nd = 6 if th else 5
+    nd = 7 if th else 5
     for ctx in ctxs:
         for sem in (False, True):
             docs = [("plain", V.toks(nd))]
